@@ -19,7 +19,7 @@ import LitexModel.Bits
        (the model itself selects point-to-point / shared / crossbar as `SoCBusHandler.do_finalize` does)
   open socglue <kind shared|crossbar> <reg 0|1> <timeout none|t> <dw> <addrWidth> <op> …
        (a whole build script against `SoCBusHandler`; opens only when every call and `do_finalize` are accepted)
-       op words:  M | S:<origin|N>:<size>:<cached>:<linker> | R:<origin|N>:<size>:<cached>:<linker> | I:<origin>:<size>
+       op words:  M | MR:<origin>:<size> (add_master(region=…): remapper) | S:<origin|N>:<size>:<cached>:<linker> | R:<origin|N>:<size>:<cached>:<linker> | I:<origin>:<size>
   decoder words:  all | hi:<shift>:<val> | set:<a>,<b>,… | region:<origin>:<size>
   (`dw` = data width in bits, `addrWidth` = `bus.address_width`, the byte-address width.)
 -/
@@ -123,6 +123,7 @@ def parseOptNat (w : String) : Option (Option Nat) := if w == "N" then some none
 def parseGlueOp (w : String) : Option GlueOp :=
   match w.splitOn ":" with
   | ["M"] => some .master
+  | ["MR", o, sz] => do some (.masterR (← o.toNat?) (← sz.toNat?))
   | ["S", o, sz, c, l] => do some (.slave (← parseOptNat o) (← sz.toNat?) (← parseBool c) (← parseBool l))
   | ["R", o, sz, c, l] => do some (.region (← parseOptNat o) (← sz.toNat?) (← parseBool c) (← parseBool l))
   | ["I", o, sz] => do some (.io (← o.toNat?) (← sz.toNat?))
@@ -145,8 +146,8 @@ def parseGlue (args : List String) : Option GlueResult :=
 def showGlue : GlueResult → String
   | .rejected k => s!"rej {k}"
   | .finRejected => "finrej"
-  | .built c => " ".intercalate (["ok", topologyName c.topology, toString c.n] ++
-      c.regions.map fun r => s!"{r.1}:{r.2}")
+  | .built c => " ".intercalate (["ok", topologyName c.soc.topology, toString c.soc.n] ++
+      c.soc.regions.map fun r => s!"{r.1}:{r.2}")
 
 /-- `<origin>:<size>:<linker>` -/
 def parseOvRegion (w : String) : Option Soc.Region :=
